@@ -888,6 +888,7 @@ def _trunc(v):
 
 
 _rowmap_cache = {}
+_SELFN = {}
 
 
 def _rowmap(mask):
@@ -908,23 +909,36 @@ def _rowmap(mask):
         sel_id = lambda r: SV.lift(r)  # noqa: E731
         _rowmap_cache[key] = (n, sel_id, mask)
         return n, sel_id
-    count = core.fresh_int("nsel", 0, None, register=False)
-    core.assume(count <= n)
-    f = z3.Function(p.fresh_name("sel"), z3.IntSort(), z3.IntSort())
+    # the selection is a function of the mask's contents: COUNT(contents, n), SEL(contents, n, r)
+    jm = z3.Int("j!mask")
+    body = core.bterm(_to_bool(me(_unflatten((SV(jm, "i"),), sh) if _py_len(sh) > 1 else (SV(jm, "i"),))))
+    lam = z3.Lambda([jm], body)
+    fs = _SELFN.get("f")
+    if fs is None:
+        fs = _SELFN["f"] = (z3.Function("np_count", lam.sort(), z3.IntSort(), z3.IntSort()),
+                            z3.Function("np_sel", lam.sort(), z3.IntSort(), z3.IntSort(), z3.IntSort()))
+    nt = core.term(SV.lift(n))
+    count = SV(fs[0](lam, nt), "i")
+    ck = ("countax", core.tid(count.t))
+    if ck not in p.counter:
+        p.counter[ck] = 1
+        p.add(z3.And(count.t >= 0, count.t <= nt))
 
     def sel(r):
         r = SV.lift(r)
-        j = SV(f(r.t), "i")
+        t = fs[1](lam, nt, r.t)
+        j = SV(t, "i")
         p2 = cur()
-        k2 = ("selax", f.name(), core.tid(z3.simplify(r.t)))
+        k2 = ("selax", core.tid(t))
         if k2 not in p2.counter:
             p2.counter[k2] = 1
-            inr = z3.And(r.t >= 0, r.t < core.term(count))
-            p2.add(z3.Implies(inr, z3.And(j.t >= 0, j.t < core.term(SV.lift(n)))))
+            inr = z3.And(r.t >= 0, r.t < count.t)
+            p2.add(z3.Implies(inr, z3.And(j.t >= 0, j.t < nt)))
             mv = me(_unflatten((j,), sh) if _py_len(sh) > 1 else (j,))
             p2.add(z3.Implies(inr, core.bterm(_to_bool(mv))))
         return j
 
+    f = fs[1]
     sel.fn = f
     _rowmap_cache.clear() if _py_len(_rowmap_cache) > 64 else None
     _rowmap_cache[key] = (count, sel, mask)
